@@ -232,6 +232,7 @@ func checkC01(c *Ctx) {
 	c.Rule("C01.R3", "admin publish handlers: success body is reached only through the err==nil edge of EnqueueBatch / every-iteration Enqueue")
 	c.Rule("C01.R4", "pull/worker settle operations return success only on the err==nil edge of the Store call or the idempotent cache hit")
 	c.Rule("C01.R5", "schema DDL executed at open lies inside one begin..commit function")
+	c.Rule("C01.R6", "bookkeeping rows stay single: every INSERT OR REPLACE / OR IGNORE / ON CONFLICT names a PRIMARY KEY / UNIQUE column of the table's DDL (or the rowid), so the conflict clause can fire instead of appending a row the single-row reader never sees")
 
 	// R1
 	serve := p.Func("ingress", "(*Server).ServeHTTP")
@@ -269,6 +270,7 @@ func checkC01(c *Ctx) {
 	checkTxTypestate(c, "C01.R2")
 	checkSettleAck(c, "C01.R4")
 	checkSchemaInit(c, "C01.R5")
+	checkUpsertTargets(c, "C01.R6")
 }
 
 var storeLeaseMethods = map[string]bool{"Ack": true, "Nack": true, "MarkDead": true, "Extend": true}
